@@ -1,6 +1,10 @@
 use bpafmc::sup::*;
 
 fn main() {
+    // child mode of C11: the whole argument vector belongs to the parser under test
+    if let Ok(id) = std::env::var("BPAFMC_CHILD") {
+        bpafmc::checks::c11::child_main(id.parse().unwrap_or(0));
+    }
     let args: Vec<String> = std::env::args().collect();
     let checks = bpafmc::all_checks();
     let find = |id: &str| checks.iter().copied().find(|c| c.id() == id);
